@@ -242,8 +242,13 @@ def const_eval(e, enums):
             return None
         return const_eval(e["inner"][1] if c else e["inner"][2], enums)
     if k == "UnaryExprOrTypeTraitExpr":
+        if SIZEOF_HOOK is not None and e.get("name") == "sizeof":
+            return SIZEOF_HOOK(e)
         return None
     return None
+
+
+SIZEOF_HOOK = None   # set by rules that need sizeof values (crules.rule_object_extents): node -> int or None
 
 
 class R:
